@@ -366,7 +366,7 @@ def run(tier, seed):
             rep.count(1, key=(e['name'], json.dumps(p)), nontrivial=len(p) > 1)
         rep.sample({'class': e['name'], 'path': use[len(use) // 2]}, limit=3)
     clean = [{'cls': t['cls'], 'events': [{k: v for k, v in ev.items() if not k.startswith('_')} for ev in t['events']]} for t in traces]
-    verdicts, st, trn = tlc.validate_traces('FunctionCacheTrace', clean, 'c12', chunk=3000)
+    verdicts, st, trn = tlc.validate_traces('FunctionCacheTrace', clean, 'c12', chunk=3000, unevaluable='P_SpecEvaluable')
     rep.cov['states'] += st
     rep.cov['transitions'] += trn
     rep.cov['traces_validated_against_impl'] += len(traces)
@@ -397,7 +397,7 @@ def replay(path, seed):
         direct, outlen = direct_values(e)
         evs = run_path(e, [tuple(p) for p in r['path']], direct, outlen)
         clean = [{'cls': e['name'], 'events': [{k: v for k, v in ev.items() if not k.startswith('_')} for ev in evs]}]
-        verdicts, st, trn = tlc.validate_traces('FunctionCacheTrace', clean, 'c12')
+        verdicts, st, trn = tlc.validate_traces('FunctionCacheTrace', clean, 'c12', unevaluable='P_SpecEvaluable')
         for step, clause in verdicts[0]:
             rep.violation(clause, {'cls': e['name'].split('(')[0], 'replay': True}, {'cls': e['name'], 'path': r['path']}, what='replayed %s' % r['path'])
     else:
